@@ -101,6 +101,15 @@ QuiesceOK(H) ==
   /\ \A R \in AllReqs(H) : \A P \in Pubs(H) :
         (Must(H, R, P) /\ ~Ended(H, H[R].c) /\ ~Stalled(H, H[R].c) /\ H[P].m.ev.kind # DrainKind)
           => Deliveries(H, H[R].c, H[R].m.sub, P) # {}
+  \* a publication is all-or-nothing: once Publish has started it visits every registered subscription,
+  \* whatever happens to the publisher's connection meanwhile. A publication that was never acknowledged
+  \* (its publisher went away) but reached some subscription reached every subscription that was confirmed
+  \* before it and stayed open
+  /\ \A R \in AllReqs(H) : \A P \in Pubs(H) :
+        (/\ Match(H, R, P) /\ EoseOf(H, R) < P /\ OkOf(H, P) = Inf /\ CloseOf(H, R) = Inf
+         /\ ~Stalled(H, H[R].c) /\ H[P].m.ev.kind # DrainKind
+         /\ \E g \in DOMAIN H : Is(H[g], "got", "SEVENT") /\ H[g].m.id = H[P].m.id)
+          => Deliveries(H, H[R].c, H[R].m.sub, P) # {}
   /\ \A R \in AllReqs(H) : ~Ended(H, H[R].c) => EoseOf(H, R) < Inf            \* every REQ answered by EOSE
   /\ \A P \in Pubs(H)    : ~Ended(H, H[P].c) => OkOf(H, P) < Inf              \* every EVENT by an accepting OK
 =============================================================================
